@@ -87,6 +87,8 @@ KINDS = {
     "undef_keyerror": (None, False, False),
     "undef_custom": (None, False, False),
     "undef_kw": (None, True, False),
+    # not registered itself, but derived from a class the callee HAS registered
+    "undef_subdef": (None, True, False),
 }
 # caller side registrations for the wire URI
 RDEFS = ("none", "same", "redef", "fixed2", "noargs", "raises", "kwonly", "falsy")
@@ -178,7 +180,7 @@ def main(ctx):
     for fw in ("tx", "aio"):
         jobs = []
         for (s1, s2) in pairs:
-            for mode in modes:
+            for mode in modes + (["interrupt"] if fw == "tx" else []):
                 for tb in (False, True):
                     n = 4
                     for part in range(n):
@@ -190,7 +192,7 @@ def main(ctx):
     for n in ("error_on_wire", "caller_got_registered_class", "caller_got_generic",
               "ctor_fallback_expected", "runtime_error_uri", "registered_uri", "carried_uri",
               "traceback_forwarded", "kwargs_carried", "mode:sync", "mode:future", "mode:late",
-              "mode:coro", "ser:json", "ser:msgpack", "ser:cbor", "ser:ubjson",
+              "mode:coro", "mode:interrupt", "ser:json", "ser:msgpack", "ser:cbor", "ser:ubjson",
               "unserializable_reported", "redefined_class_surfaced",
               "premapped_uri_class_surfaced"):
         ctx.require(n)
@@ -264,6 +266,9 @@ def classes():
     class UndefKw(_Kw):
         pass
 
+    class UndefSubDef(DecKw):
+        """undefined subclass of a defined (decorated) class"""
+
     class RtKw(_Kw):
         """caller side class registered for the generic runtime error URI"""
 
@@ -292,7 +297,7 @@ def classes():
 
     _CLS.update(dict(DecArgs=DecArgs, DecKw=DecKw, DecSub=DecSub, DecBase=DecBase,
                      ExplArgs=ExplArgs, ExplKw=ExplKw, AppSub=AppSub, AppLike=AppLike,
-                     UndefCustom=UndefCustom, UndefKw=UndefKw, RtKw=RtKw, Fixed2=Fixed2,
+                     UndefCustom=UndefCustom, UndefKw=UndefKw, UndefSubDef=UndefSubDef, RtKw=RtKw, Fixed2=Fixed2,
                      NoArgs=NoArgs, Raises=Raises, KwOnly=KwOnly, Falsy=Falsy,
                      DecInvalid=DecInvalid, ExplExceeded=ExplExceeded, Old=Old,
                      ApplicationError=ApplicationError))
@@ -301,7 +306,7 @@ def classes():
 
 KIND_CLASS = {"dec_args": "DecArgs", "dec_kw": "DecKw", "dec_sub": "DecSub",
               "expl_args": "ExplArgs", "expl_kw": "ExplKw", "appsub": "AppSub",
-              "undef_custom": "UndefCustom", "undef_kw": "UndefKw",
+              "undef_custom": "UndefCustom", "undef_kw": "UndefKw", "undef_subdef": "UndefSubDef",
               "dec_invalid": "DecInvalid", "expl_exceeded": "ExplExceeded"}
 DECORATED = ("dec_args", "dec_kw", "dec_sub", "dec_invalid")
 EXPLICIT = ("expl_args", "expl_kw", "expl_exceeded")
@@ -339,6 +344,10 @@ def setup_registries(case, callee, caller, wire_uri_expected):
     C = classes()
     kind = case["exc"]
     uri, has_kw, needs_def = KINDS[kind]
+    if kind == "undef_subdef":
+        callee.define(C["DecKw"])            # the base class is registered, the raised class is not
+    if kind == "dec_sub" and case["cdef"]:
+        callee.define(C["DecBase"])          # base class first, then the derived class
     if needs_def and case["cdef"]:
         cls = C[KIND_CLASS[kind]]
         if kind in DECORATED:
@@ -420,6 +429,15 @@ def run_case(case, mode, tb, ser):
             f = txaio.create_future()
             pending.append(f)
             return f
+    elif mode == "interrupt":
+        # Twisted only: the procedure fails with the case's exception IN REACTION to an INTERRUPT
+        # (the Deferred's canceller raises it)
+        def proc(*a, **kw):
+            invoked.append(1)
+            from twisted.internet import defer
+            f = defer.Deferred(canceller=lambda d: d.errback(make_exc()))
+            pending.append(f)
+            return f
     elif mode == "coro":
         async def proc(*a, **kw):
             invoked.append(1)
@@ -431,6 +449,14 @@ def run_case(case, mode, tb, ser):
     if not r or r[0][0] != "ok":
         raise RuntimeError("register failed: %r" % (r,))
     box = b.do(caller.call("com.myapp.proc", 7, x=8))
+    if mode == "interrupt":
+        if box:
+            raise RuntimeError("interrupt mode: call completed early: %r" % (box,))
+        inv = list(b.router.invocations)
+        if len(inv) != 1:
+            raise RuntimeError("interrupt mode: %d invocations at the router" % len(inv))
+        b.router.out("callee", M.Interrupt(inv[0]))
+        b.run()
     if mode == "late":
         if box:
             raise RuntimeError("late mode: call completed early: %r" % (box,))
@@ -542,7 +568,8 @@ FAMILY = {"app": "apperror", "app2": "apperror", "appsub": "apperror-subclass",
           "dec_args": "decorated", "dec_kw": "decorated", "dec_sub": "decorated-subclass",
           "expl_args": "explicit", "expl_kw": "explicit", "dec_invalid": "decorated-premapped-uri",
           "expl_exceeded": "explicit-premapped-uri", "undef_runtime": "undefined",
-          "undef_keyerror": "undefined", "undef_custom": "undefined", "undef_kw": "undefined"}
+          "undef_keyerror": "undefined", "undef_custom": "undefined", "undef_kw": "undefined",
+          "undef_subdef": "undefined-subclass-of-defined"}
 
 
 def shape(case):
